@@ -12,11 +12,13 @@ import (
 var textWords = []string{
 	"hello", "World", "a", "I", "ça", "naïve", "Ünï", "日本語", "中文", "한국어", "العربية", "עברית", "emoji😀", "𝔘𝔫𝔦", "é", "ọ̈",
 	"\ufeffzw", "z\u200bw", "l\u2028s", "n\u0085l", "İi", "ǅ", "ﬁ",
-	"3", "42", "1.5", "x=y", "100%", "#tag", "@me", "it's", "\"q\"", "(p)", "[b]", "-", "–", "…", "!?", "a/b", "c\\d", "~", "^", "_u_", "`", "|",
+	"3", "42", "1.5", "x=y", "100%", "#tag", "@me", "it's", "\"q\"", "(p)", "[b]", "-", "–", "…", "!?", "a/b", "c\\d", "NARRATOR:", "a::b", "10:30", "~", "^", "_u_", "`", "|",
 }
 
 type textOpts struct {
 	amp, lt, gt, nbsp, braces, comma, ampEntity bool
+	bsN                                         bool // backslash sequences that mean something in SSA only
+	ansi                                        bool // words in a one-byte code page (not valid UTF-8), as in scripts saved as ANSI
 	maxWords                                    int
 }
 
@@ -54,6 +56,14 @@ func genText(r *fw.Rand, o textOpts) string {
 		case 5:
 			if o.comma {
 				w = fw.Pick(r, []string{"a,b", ",", "1,5", "x, y"})
+			}
+		case 8:
+			if o.ansi {
+				w = fw.Pick(r, []string{"Caf\xe9", "cr\xe8me", "\xa1Hola!", "na\xefve"})
+			}
+		case 7:
+			if o.bsN {
+				w = fw.Pick(r, []string{`C:\Nightly`, `\N`, `a\nb`, `\\server\News`, `\h`})
 			}
 		case 6:
 			if o.lt {
